@@ -9,6 +9,7 @@ Values (Python): ("null",) ("bool",b) ("int",n) ("flt",pyfloat) ("dec",neg,m,e) 
 ("arr",[v..]) ("obj",[(key cps, v)..]).  `flt` only occurs in terms sent to / received from the
 implementation, `dec` (exact decimal, normalised) only in model values.
 """
+import re
 import struct
 from fractions import Fraction
 
@@ -669,150 +670,130 @@ WELLFORMED_EXTRA = [
 # ---------------------------------------------------------------- cases
 
 USE = "use_module(library(serialization/json))."
+BATCH = 20
+BIGEXP = re.compile(r"[eE][+-]?[0-9]{5,}")
 
 
-def parse_case(i, cps, origin, expect=None):
-    lit = pl_string(cps)
-    q = "catch(findall(J, phrase(json_chars(J), %s), Js), error(E, _), true)." % lit
-    return {"id": "p%d" % i, "dir": "parse", "origin": origin, "text": cps, "expect": expect,
-            "impl": ["Q\tpu%d\t1\t%s" % (i, USE), "Q\tp%d\t1\t%s" % (i, hesc(q))],
-            "model": ["parse\tp%d\t%s" % (i, cps_field(cps))]}
+def norm_value(v):
+    """tuples again after a trip through JSON (replay / corpus files)"""
+    if v is None:
+        return None
+    k = v[0]
+    if k == "arr":
+        return ("arr", [norm_value(x) for x in v[1]])
+    if k == "obj":
+        return ("obj", [(list(kk), norm_value(x)) for kk, x in v[1]])
+    if k == "str":
+        return ("str", list(v[1]))
+    return tuple(v)
 
 
-def gen_case(i, v, origin):
-    t = pl_term(v)
-    q = ("T = %s, catch((once(phrase(json_chars(T), Cs)), findall(J, phrase(json_chars(J), Cs), Js)), error(E, _), true)." % t)
-    c = {"id": "g%d" % i, "dir": "gen", "origin": origin, "value": v,
-         "impl": ["Q\tgu%d\t1\t%s" % (i, USE), "Q\tg%d\t1\t%s" % (i, hesc(q))], "model": []}
-    if not has_kind(v, "flt"):
-        c["model"] = ["gen\tg%d\t%s" % (i, " ".join(model_tokens(v)))]
-    return c
+def parse_item(i, cps, origin, expect=None):
+    return {"id": "p%d" % i, "dir": "parse", "origin": origin, "text": list(cps), "expect": expect}
 
 
-def build_cases(rng, tier):
+def gen_item(i, v, origin):
+    return {"id": "g%d" % i, "dir": "gen", "origin": origin, "value": v}
+
+
+def item_goal(it, k):
+    """the Prolog goal of one item; its variables carry the suffix k (A=answers, E=error, C=text, T=term)"""
+    if it["dir"] == "parse":
+        return "catch(findall(J, phrase(json_chars(J), %s), A%d), error(E%d, _), true)" % (pl_string(it["text"]), k, k)
+    return ("T%d = %s, catch((once(phrase(json_chars(T%d), C%d)), findall(J, phrase(json_chars(J), C%d), A%d)), "
+            "error(E%d, _), true)" % (k, pl_term(it["value"]), k, k, k, k, k))
+
+
+def item_model_lines(it):
+    if it["dir"] == "parse":
+        return ["parse\t%s\t%s" % (it["id"], cps_field(it["text"]))]
+    if not has_kind(it["value"], "flt"):
+        return ["gen\t%s\t%s" % (it["id"], " ".join(model_tokens(it["value"])))]
+    return []
+
+
+def make_batch(bid, items):
+    """one harness case: load the library (each worker has its own machine), then ONE query that
+    runs every item of the batch (a query costs ~10 ms, use_module ~40 ms)."""
+    q = ", ".join(item_goal(it, k) for k, it in enumerate(items)) + "."
+    return {"id": bid, "items": items,
+            "impl": ["Q\tu%s\t1\t%s" % (bid, USE), "Q\t%s\t1\t%s" % (bid, hesc(q))],
+            "model": [l for it in items for l in item_model_lines(it)]}
+
+
+def split_bindings(res, n):
+    """result of a batch query -> list of per-item dicts {A,E,C,T}, or None if it is not a binding set"""
+    if not (res or "").startswith("{"):
+        return None
+    b = parse_bindings(res.split(" ;; ")[0])
+    out = [dict() for _ in range(n)]
+    for name, t in b.items():
+        if name[0] in "AECT" and name[1:].isdigit() and int(name[1:]) < n:
+            out[int(name[1:])][name[0]] = t
+    return out
+
+
+def build_items(rng, tier):
     n_val = 700 if tier == "quick" else 12000
     n_edit = 1500 if tier == "quick" else 30000
-    cases = []
-    k = 0
+    items = []
     docs = []
+
+    def add(it):
+        items.append(it)
+
+    k = [0]
+
+    def nid():
+        k[0] += 1
+        return k[0]
     for s in MALFORMED:
-        cases.append(parse_case(k, [ord(c) for c in s], "malformed-list"))
-        k += 1
+        add(parse_item(nid(), [ord(c) for c in s], "malformed-list"))
     for s in WELLFORMED_EXTRA:
         cps = [ord(c) for c in s]
-        cases.append(parse_case(k, cps, "wellformed-list"))
+        add(parse_item(nid(), cps, "wellformed-list"))
         docs.append(cps)
-        k += 1
-    # every escape, both hex cases, for a sample of code points (thorough: all controls and specials)
-    for cp in list(range(0, 33)) + [34, 47, 92, 127, 0xe9, 0xffff, 0x10000, 0x1f600, 0x10ffff]:
+    # every \u escape of the controls and of the boundary code points, lower and upper case hex
+    for cp in list(range(0, 33)) + [34, 47, 92, 127, 0xe9, 0xd7ff, 0xe000, 0xffff, 0x10000, 0x1f600, 0x10ffff]:
         for up in (False, True):
             if cp < 0x10000:
                 s = "\\u%04x" % cp
             else:
                 s = "\\u%04x\\u%04x" % (0xD800 + ((cp - 0x10000) >> 10), 0xDC00 + ((cp - 0x10000) & 0x3FF))
             s = '"' + (s.upper().replace("\\U", "\\u") if up else s) + '"'
-            cases.append(parse_case(k, [ord(c) for c in s], "escape-table", ("str", [cp])))
-            k += 1
-    values = []
+            add(parse_item(nid(), [ord(c) for c in s], "escape-table", ("str", [cp])))
     for j in range(n_val):
         floats = (j % 3 == 2)
         v = gen_value(rng, rng.choice([1, 2, 2, 3, 3, 4, 4]), floats)
-        values.append(v)
-    for v in values:
-        # generation + round trip on the implementation
-        cases.append(gen_case(k, v, "value"))
-        k += 1
+        add(gen_item(nid(), v, "value"))             # generation + parsing back on the implementation
         mv = to_model_value(v)
-        # canonical text and a spelling variant, parsed
         if not has_kind(v, "flt"):
-            cps = spell(rng, mv, False)
-            cases.append(parse_case(k, cps, "canonical", mv))
-            k += 1
+            add(parse_item(nid(), spell(rng, mv, False), "canonical", mv))
         cps = spell(rng, mv, True)
-        cases.append(parse_case(k, cps, "variant", mv))
+        add(parse_item(nid(), cps, "variant", mv))
         docs.append(cps)
-        k += 1
-    # scalar sweeps: integers and floats on their own (number token round trip), strings on their own
+    # scalar sweeps: integers and floats on their own (number token round trip), characters on their own
     for n in INT_POOL + [-x for x in INT_POOL]:
-        cases.append(gen_case(k, ("int", n), "int-pool"))
-        k += 1
+        add(gen_item(nid(), ("int", n), "int-pool"))
     for f in FLT_POOL + [-x for x in FLT_POOL if x != 0]:
-        cases.append(gen_case(k, ("flt", f), "flt-pool"))
-        k += 1
+        add(gen_item(nid(), ("flt", f), "flt-pool"))
     for _ in range(200 if tier == "quick" else 6000):
-        cases.append(gen_case(k, ("flt", gen_float(rng)), "flt-random"))
-        k += 1
+        add(gen_item(nid(), ("flt", gen_float(rng)), "flt-random"))
     for cp in sorted(set(CHAR_POOL)):
-        cases.append(gen_case(k, ("str", [cp]), "char-pool"))
-        k += 1
+        add(gen_item(nid(), ("str", [cp]), "char-pool"))
     # single-edit mutants of valid documents
+    docs = [d for d in docs if len(d) <= 300]
     for _ in range(n_edit):
-        d = rng.choice(docs)
-        if len(d) > 400:
-            continue
-        m = edit(rng, d)
+        m = edit(rng, rng.choice(docs))
         if rng.random() < 0.15:
             m = edit(rng, m)
-        cases.append(parse_case(k, m, "edit"))
-        k += 1
-    return cases
+        if BIGEXP.search("".join(map(chr, m))):
+            continue          # 10^99999…: the implementation would compute it
+        add(parse_item(nid(), m, "edit"))
+    return items
 
 
 # ---------------------------------------------------------------- judging
-
-def classify_parse(c, mres, ires, stats):
-    """returns None when fine, else (kind, cls, detail)"""
-    text = "".join(chr(x) for x in c["text"])
-    if mres == "skip-bigexp":
-        stats["skipped"] += 1
-        return None
-    if not (ires or "").startswith("{"):
-        return ("disagreement", "harness-" + (ires or "missing").split("(")[0], ires)
-    try:
-        b = parse_bindings(ires.split(" ;; ")[0])
-    except (CanonError, ValueError, IndexError) as x:
-        return ("disagreement", "unreadable-impl-output", str(x))
-    impl_vals = None          # None = an error was raised
-    if "E" not in b:
-        try:
-            impl_vals = [term_to_value(t) for t in as_list(b["Js"])]
-        except (CanonError, KeyError) as x:
-            return ("violation", "undocumented-term", "answer is not in the documented term form: %s" % x)
-    if mres == "none":
-        if impl_vals is None:
-            stats["rejected_by_error"] += 1
-            return None
-        if impl_vals == []:
-            stats["rejected_by_failure"] += 1
-            return None
-        return ("violation", "accepts-invalid", "the model (RFC 8259 grammar) rejects this document, the implementation returns %r" % (impl_vals[:1],))
-    if not mres.startswith("ok "):
-        return ("disagreement", "model-output", mres)
-    mv = read_model_value(mres[3:].split(" "))
-    if c.get("expect") is not None and c["expect"] != mv:
-        return ("disagreement", "generator-vs-model", "python expected %r, model parsed %r" % (c["expect"], mv))
-    stats["valid"] += 1
-    if impl_vals is None or impl_vals == []:
-        surr = any(text[i:i + 2] == "\\u" and text[i + 2:i + 4].lower() in ("d8", "d9", "da", "db") for i in range(len(text)))
-        if surr and has_nonbmp(mv) and "representation_error" in (ires or ""):
-            return ("violation", "surrogate-pair-escape", "valid document with a \\uD8xx\\uDCxx pair is not parsed: %s" % (ires or "")[:120])
-        return ("violation", "rejects-valid", "valid document is not parsed: %s" % (ires or "")[:160])
-    if len(impl_vals) != 1:
-        return ("violation", "several-answers", "%d answers for one document" % len(impl_vals))
-    notes = []
-    if not same_value(mv, impl_vals[0], notes):
-        return ("violation", "wrong-value", "model %r, implementation %r" % (mv, impl_vals[0]))
-    for kind, d, exp, got in notes:
-        if kind == "range":
-            stats["float_out_of_range"] += 1
-        elif kind == "nearest":
-            stats["float_not_nearest"] += 1
-        elif kind == "exact":
-            return ("violation", "float-exact", "%r is exactly representable (bits %s), the parser returned bits %s" % (d, exp, got))
-    if has_kind(mv, "dec"):
-        stats["float_docs"] += 1
-    return None
-
 
 def has_nonbmp(v):
     if v[0] == "str":
@@ -824,24 +805,81 @@ def has_nonbmp(v):
     return False
 
 
-def classify_gen(c, mres, ires, stats, second):
-    """generation + round trip. `second` collects model lines that parse the implementation's text."""
+def show_term(t):
+    return repr(t)[:160]
+
+
+def classify_parse(c, mres, b, stats):
+    """c: item, mres: model result text, b: the item's bindings {A: answers | E: error}.
+    Returns None when fine, else (kind, class, detail)."""
+    text = "".join(chr(x) for x in c["text"])
+    if mres == "skip-bigexp":
+        stats["skipped"] += 1
+        return None
+    impl_vals = None          # None = an error was raised
+    if "E" not in b:
+        try:
+            impl_vals = [term_to_value(t) for t in as_list(b["A"])]
+        except (CanonError, KeyError) as x:
+            return ("violation", "undocumented-term", "answer is not in the documented term form: %s" % x)
+    if mres == "none":
+        if impl_vals is None:
+            stats["rejected_by_error"] += 1
+            return None
+        if impl_vals == []:
+            stats["rejected_by_failure"] += 1
+            return None
+        return ("violation", "accepts-invalid",
+                "the model (RFC 8259 grammar) rejects this document, the implementation returns %r" % (impl_vals[:1],))
+    if not mres.startswith("ok "):
+        return ("disagreement", "model-output", mres)
+    mv = read_model_value(mres[3:].split(" "))
+    expect = norm_value(c.get("expect"))
+    if expect is not None and expect != mv:
+        return ("disagreement", "generator-vs-model", "python expected %r, model parsed %r" % (expect, mv))
+    stats["valid"] += 1
+    if impl_vals is None or impl_vals == []:
+        how = ("raises " + show_term(b["E"])) if impl_vals is None else "fails"
+        surr = any(text[i:i + 2] == "\\u" and text[i + 2:i + 4].lower() in ("d8", "d9", "da", "db") for i in range(len(text)))
+        if surr and has_nonbmp(mv) and "representation_error" in how:
+            return ("violation", "surrogate-pair-escape", "valid document with a \\uD8xx\\uDCxx pair is not parsed: " + how)
+        if has_kind(mv, "dec") and "evaluation_error" in how:
+            return ("violation", "float-range-error", "valid document whose numbers are finite doubles is not parsed: " + how)
+        return ("violation", "rejects-valid", "valid document is not parsed: " + how)
+    if len(impl_vals) != 1:
+        return ("violation", "several-answers", "%d answers for one document" % len(impl_vals))
+    notes = []
+    if not same_value(mv, impl_vals[0], notes):
+        return ("violation", "wrong-value", "model %r, implementation %r" % (mv, impl_vals[0]))
+    for kind, d, exp, got in notes:
+        if kind == "range":
+            stats["float_out_of_range"] += 1
+        elif kind == "nearest":
+            stats["float_not_nearest"] += 1
+        elif kind == "exact":
+            return ("violation", "float-exact",
+                    "%r is exactly representable (bits %s), the parser returned bits %s" % (d, exp, got))
+    if has_kind(mv, "dec"):
+        stats["float_docs"] += 1
+    return None
+
+
+def classify_gen(c, mres, b, stats, second):
+    """generation + parsing back on the implementation; text compared with the model's gen when
+    the value has no float. `second` collects items whose generated text the model parses."""
     v = c["value"]
-    if not (ires or "").startswith("{"):
-        return ("disagreement", "harness-" + (ires or "missing").split("(")[0], ires)
     try:
-        b = parse_bindings(ires.split(" ;; ")[0])
         t_echo = term_to_value(b["T"])
-    except (CanonError, KeyError, ValueError, IndexError) as x:
+    except (CanonError, KeyError) as x:
         return ("disagreement", "unreadable-impl-output", str(x))
     if not same_value(v, t_echo, []):
         stats["reader_mismatch"] += 1      # the reader did not read our literal as intended: not C41's subject
         return None
-    if "E" in b or "Cs" not in b:
-        return ("violation", "gen-fails", "generation raised/failed: %s" % ires[:160])
+    if "E" in b or "C" not in b:
+        return ("violation", "gen-fails", "generation raised/failed: %s" % show_term(b.get("E")))
     try:
-        text = as_chars(b["Cs"])
-        back = [term_to_value(t) for t in as_list(b["Js"])]
+        text = as_chars(b["C"])
+        back = [term_to_value(t) for t in as_list(b["A"])]
     except (CanonError, KeyError) as x:
         return ("violation", "undocumented-term", str(x))
     c["impl_text"] = text
@@ -849,53 +887,86 @@ def classify_gen(c, mres, ires, stats, second):
         if not mres.startswith("ok"):
             return ("disagreement", "model-output", mres)
         mt = [int(x) for x in mres[3:].split(" ")] if len(mres) > 3 else []
+        stats["gen_text_compared"] += 1
         if mt != text:
             return ("violation", "gen-text", "generated text differs: model %r, implementation %r" % (
                 "".join(map(chr, mt)), "".join(map(chr, text))))
     second.append(c)
     if len(back) != 1 or not same_value(v, back[0], []):
         if len(back) == 1 and flt_diff_only(v, back[0]):
-            return ("violation", "float-roundtrip", "text %r generated from %r parses back to %r" % (
+            return ("violation", "float-roundtrip", "text %r generated from %s parses back to %s" % (
                 "".join(map(chr, text)), pl_term(v), pl_term(back[0])))
         return ("violation", "roundtrip", "text %r generated from %s parses back to %r" % (
             "".join(map(chr, text)), pl_term(v), back))
     return None
 
 
+STABLE = ("surrogate-pair-escape", "float-roundtrip", "float-exact", "float-range-error")
+
+
 def run(ctx):
     rng, tier = ctx["rng"], ctx["tier"]
     rep = diff.replay_case(ctx)
     if rep is not None:
-        cases = rep
-        for c in cases:     # ids may collide with nothing else in a replay
-            pass
+        items = [it for c in rep for it in c.get("items", [])]
     else:
-        cases = diff.load_corpus("C41") + build_cases(rng, tier)
-    impl, model = diff.run_cases(cases)
+        items = [it for c in diff.load_corpus("C41") for it in c.get("items", [])]
+        for n, it in enumerate(items):
+            it["id"] = "c%d%s" % (n, it["dir"][0])
+        items += build_items(rng, tier)
+    for it in items:
+        if it["dir"] == "gen":
+            it["value"] = norm_value(it["value"])
+    batches = [make_batch("b%d" % n, items[i:i + BATCH]) for n, i in enumerate(range(0, len(items), BATCH))]
+    impl, model = diff.run_cases(batches)
+    per_item = {}
+    redo = []
+    for bt in batches:
+        try:
+            sp = split_bindings(impl.get(bt["id"]), len(bt["items"]))
+        except (CanonError, ValueError, IndexError):
+            sp = None
+        if sp is None:
+            redo.extend(bt["items"])      # timeout / panic / unreadable: run its items one by one
+        else:
+            for it, b in zip(bt["items"], sp):
+                per_item[it["id"]] = b
+    if redo:
+        singles = [make_batch("r%s" % it["id"], [it]) for it in redo]
+        for s in singles:
+            s["model"] = []
+        impl2, _ = diff.run_cases(singles)
+        for s in singles:
+            it = s["items"][0]
+            try:
+                sp = split_bindings(impl2.get(s["id"]), 1)
+            except (CanonError, ValueError, IndexError):
+                sp = None
+            per_item[it["id"]] = sp[0] if sp else ("raw", impl2.get(s["id"]))
     stats = {k: 0 for k in ("valid", "rejected_by_failure", "rejected_by_error", "float_not_nearest", "float_out_of_range",
                             "float_docs", "reader_mismatch", "skipped", "gen_text_compared", "gen_parsed_back_by_model")}
+    stats["batches_rerun_item_by_item"] = len(redo)
     findings, agree = [], 0
     second = []
     distinct = set()
     origins = {}
     verdicts = {}
-    for c in cases:
+    for c in items:
         i = c["id"]
         origins[c.get("origin", "corpus")] = origins.get(c.get("origin", "corpus"), 0) + 1
+        b = per_item.get(i)
         try:
-            if c["dir"] == "parse":
-                r = classify_parse(c, model.get(i, "missing"), impl.get(i), stats)
-                distinct.add(("p", tuple(c["text"])))
+            if isinstance(b, tuple) or b is None:
+                raw = b[1] if b else "missing"
+                r = ("disagreement", "harness-" + str(raw).split("(")[0], str(raw)[:200])
+            elif c["dir"] == "parse":
+                r = classify_parse(c, model.get(i, "missing"), b, stats)
             else:
-                r = classify_gen(c, model.get(i), impl.get(i), stats, second)
-                if model.get(i) is not None:
-                    stats["gen_text_compared"] += 1
-                distinct.add(("g", pl_term(c["value"])))
+                r = classify_gen(c, model.get(i), b, stats, second)
         except Exception as x:     # a judge bug must not pass silently
             r = ("disagreement", "judge-exception", repr(x))
+        distinct.add(("p", tuple(c["text"])) if c["dir"] == "parse" else ("g", pl_term(c["value"])))
         verdicts[i] = r
-        if rep is not None:
-            print("replay %s: impl=%s model=%s verdict=%r" % (i, impl.get(i), model.get(i), r))
     # second phase: the model parses the text the implementation generated
     lines = ["parse\tz%s\t%s" % (c["id"], cps_field(c["impl_text"])) for c in second]
     m2 = core.run_model(lines) if lines else {}
@@ -905,39 +976,43 @@ def run(ctx):
         mres = m2.get("z" + c["id"], "missing")
         stats["gen_parsed_back_by_model"] += 1
         if not mres.startswith("ok "):
-            verdicts[c["id"]] = ("violation", "gen-invalid-text", "the model rejects the generated text %r" % "".join(map(chr, c["impl_text"])))
+            verdicts[c["id"]] = ("violation", "gen-invalid-text",
+                                 "the model rejects the generated text %r" % "".join(map(chr, c["impl_text"])))
             continue
         mv = read_model_value(mres[3:].split(" "))
         notes = []
         if not same_value(mv, c["value"], notes) or any(n[0] in ("exact", "nearest") for n in notes):
             verdicts[c["id"]] = ("violation", "gen-denotes-other-value", "generated text %r denotes %r, not %s" % (
                 "".join(map(chr, c["impl_text"])), mv, pl_term(c["value"])))
-    for c in cases:
+    for c in items:
         r = verdicts.get(c["id"])
+        if rep is not None:
+            print("replay %s %s: impl=%r model=%s verdict=%r" % (
+                c["id"], "".join(map(chr, c["text"])) if c["dir"] == "parse" else pl_term(c["value"]),
+                per_item.get(c["id"]), model.get(c["id"]), r))
         if r is None:
             agree += 1
             continue
         kind, cls, detail = r
+        shown = "".join(map(chr, c["text"])) if c["dir"] == "parse" else pl_term(c["value"])
         sig = {"family": "json", "dir": c["dir"], "class": cls}
-        if cls not in ("surrogate-pair-escape", "float-roundtrip", "float-exact"):
-            sig["input"] = "".join(map(chr, c["text"])) if c["dir"] == "parse" else pl_term(c["value"])
-        keep = {k: c[k] for k in ("id", "dir", "origin", "impl", "model") if k in c}
-        if c["dir"] == "parse":
-            keep["text"] = c["text"]
-            keep["expect"] = c.get("expect")
-        else:
-            keep["value"] = c["value"]
-        findings.append(core.Finding(kind, sig, detail, keep))
+        if cls not in STABLE:
+            sig["input"] = shown
+        item = {k: c[k] for k in ("dir", "origin", "text", "expect", "value") if k in c}
+        item["id"] = "x0"
+        single = make_batch("x", [dict(item)])
+        findings.append(core.Finding(kind, sig, detail + " | input: " + shown,
+                                     {"items": [item], "impl": single["impl"], "model": single["model"]}))
     samples = []
-    for c in cases[:: max(1, len(cases) // 8)][:8]:
+    for c in items[:: max(1, len(items) // 8)][:8]:
         samples.append("".join(map(chr, c["text"])) if c["dir"] == "parse" else pl_term(c["value"]))
     out = {
-        "evaluations": len(cases),
+        "evaluations": len(items),
         "distinct_nontrivial": len(distinct),
-        "rule": "JSON values of depth<=4 (strings over a pool biased to the escape table, controls, surrogate boundaries, non-BMP; integers at 2^31/2^53/2^63/2^64/10^k; floats from a pool, dyadics, random bit patterns) are (a) generated and parsed back on the implementation, text compared with the model's gen, (b) parsed from the canonical text and from a spelling variant (white space, escape spellings incl. \\uXXXX in both cases and surrogate pairs, number spellings); plus single-edit mutants of those documents and a hand-written malformed list; distinct by document text / term text, every case exercises the parser or generator on a non-empty structured input",
+        "rule": "JSON values of depth<=4 (strings over a pool biased to the escape table, controls, surrogate boundaries, non-BMP; integers at 2^31/2^53/2^63/2^64/10^k; floats from a pool, dyadics, random bit patterns) are (a) generated and parsed back on the implementation, text compared with the model's gen, (b) parsed from the canonical text and from a spelling variant (white space, escape spellings incl. \\uXXXX in both cases and surrogate pairs, number spellings); plus single-edit mutants of those documents and a hand-written malformed list; distinct by document text / term text; every case runs the parser or the generator on a structured input; %d items share one query" % BATCH,
         "samples": samples,
         "traces_validated_against_impl": agree,
-        "disagreements_checked": len(cases) - agree,
+        "disagreements_checked": len(items) - agree,
         "origins": origins,
         "exhaustive": False,
         "findings": findings,
